@@ -16,7 +16,7 @@
 From Coq Require Import List String Permutation.
 From Dagrt Require Import GenLang GenC07 Lang Sched Transform TransformSem TransformSide TransformBasics TransformHoist
      TransformSpec TransformMappers TransformLeaf TransformStmt TransformSd TransformTree TransformProj
-     TransformProofs.
+     TransformProofs TransformSyn TransformSynPasses TransformFuel.
 
 (* Full statement for the call isolator: every structured phase (leaves without loops, call-free
    guards, function symbols that are not written variables), no restriction on where calls occur.
@@ -125,3 +125,27 @@ Theorem C07_guard_implied : forall F c g s r,
   gext c g -> cond_t F s g = (r, Ok true) -> exists r', cond_t F s c = (r', Ok true).
 Proof. exact guard_implied. Qed.
 Print Assumptions C07_guard_implied.
+
+(* definition before use: in the statements derived from one input statement s, a name of ANY set G
+   is read only if the reads of s already allow it (D) or an earlier statement of the same block
+   wrote it.  With G = the generated names (C07 freshness: none occurs in s, so D = [] qualifies,
+   lemma def_before_use_fresh) no generated variable is read before the statement that sets it.
+   No restriction on where calls / conditional expressions occur. *)
+Theorem C07_def_before_use : forall lbr fixed ords t t' st',
+  forallb lf (tstmts t) = true ->
+  eliminate_self_dependencies lang_lhs_sub_reads lbr c07_seed_node_vars c07_sd_sorted ords t = TOk (t', st') \/
+  isolate_function_arguments lang_lhs_sub_reads lbr c07_seed_node_vars t = TOk (t', st') \/
+  isolate_function_calls lang_lhs_sub_reads lbr c07_seed_node_vars fixed t = TOk (t', st') \/
+  expand_IfThenElse lang_lhs_sub_reads lbr c07_seed_node_vars c07_ite_flag_first t = TOk (t', st') ->
+  derives def_before_use t t'.
+Proof.
+  exact (fun lbr fixed ords =>
+           def_before_use_thm lang_lhs_sub_reads lbr c07_seed_node_vars c07_sd_sorted fixed c07_ite_flag_first
+                              ords eq_refl).
+Qed.
+Print Assumptions C07_def_before_use.
+
+(* pytools' name search always finds a name (the model's fuel never runs out) *)
+Theorem C07_name_search_total : forall g b, exists n g', gen g b = Some (n, g').
+Proof. exact gen_total. Qed.
+Print Assumptions C07_name_search_total.
